@@ -159,7 +159,7 @@ Definition desc_wf (d : desc) : Prop := Forall sec_has_mid (d_secs d).
 Definition odesc_wf (o : option desc) : Prop := match o with Some d => desc_wf d | None => True end.
 
 Record Inv (p : pc) : Prop := {
-  inv_pend : p_sig p = HaveRemoteOffer -> p_pend_remote p <> None;
+  inv_pend : p_sig p = HaveRemoteOffer \/ p_sig p = HaveLocalPranswer -> p_pend_remote p <> None;
   inv_cur : p_cur_local p <> None -> p_cur_remote p <> None;
   inv_wf_cur : odesc_wf (p_cur_local p);
   inv_wf_pend : odesc_wf (p_pend_local p);
@@ -178,7 +178,7 @@ Proof.
 Qed.
 
 Lemma Inv_init : forall a, Inv (pc_init a).
-Proof. intro a. constructor; cbn; try congruence; auto; constructor. Qed.
+Proof. intro a. constructor; cbn; try congruence; auto; try constructor. intros [H|H]; discriminate. Qed.
 
 Definition ms_ne (ms : list msec) : Prop :=
   Forall (fun m => match m with MSData id => id <> "" | MSMedia id _ => id <> "" end) ms.
@@ -269,14 +269,19 @@ Proof.
   intros p p' out fx H I. unfold create_answer in H.
   destruct (remote_for_matching p) as [r|]; [|inversion H; subst; auto].
   destruct (p_closed p); [inversion H; subst; auto|].
-  destruct (negb (sig_eqb (p_sig p) HaveRemoteOffer)); [inversion H; subst; auto|].
+  destruct (negb (sig_eqb (p_sig p) HaveRemoteOffer) && negb (sig_eqb (p_sig p) HaveLocalPranswer));
+    [inversion H; subst; auto|].
   destruct (matched_sections p (d_secs r) (p_tcvs p) false) as [[ms unused]|e|] eqn:M;
     try (inversion H; subst; auto; fail).
+  2:{ inversion H; subst. eapply Inv_ext; [|exact I]. reflexivity. }
   inversion H; subst. destruct I. constructor; cbn; auto.
   apply render_wf. unfold matched_sections in M.
   destruct (matched_loop (d_secs r) (indexed (p_tcvs p)) [] false) as [[[acc locals] ha]|e|] eqn:L; try discriminate.
   inversion M; subst. eapply matched_loop_ne; eauto. constructor.
 Qed.
+
+Lemma sig_eqb_eq : forall a b, sig_eqb a b = true -> a = b.
+Proof. destruct a, b; cbn; intro H; try discriminate; reflexivity. Qed.
 
 Lemma set_local_inv : forall p ty p' out fx, set_local p ty = (p', out, fx) -> Inv p -> Inv p'.
 Proof.
@@ -286,11 +291,29 @@ Proof.
   - destruct (p_last_offer p) as [d|] eqn:Lo; [|inversion H; subst; auto].
     destruct (sig_eqb (p_sig p) Stable); inversion H; subst; auto.
     destruct I. rewrite Lo in inv_wf_lo0. constructor; cbn; auto; try discriminate.
+    intros [X|X]; discriminate.
   - destruct (p_last_answer p) as [d|] eqn:La; [|inversion H; subst; auto].
-    destruct (sig_eqb (p_sig p) HaveRemoteOffer) eqn:Es; [|inversion H; subst; auto].
-    assert (Hs : p_sig p = HaveRemoteOffer) by (destruct (p_sig p); try discriminate; auto).
+    destruct (sig_eqb (p_sig p) HaveRemoteOffer || sig_eqb (p_sig p) HaveLocalPranswer) eqn:Es;
+      [|inversion H; subst; auto].
+    assert (Hs : p_sig p = HaveRemoteOffer \/ p_sig p = HaveLocalPranswer).
+    { apply orb_true_iff in Es. destruct Es as [Es|Es]; apply sig_eqb_eq in Es; auto. }
     destruct (match p_pend_remote p with Some _ => start_rtp_senders _ | None => _ end) as [l2 ok].
     inversion H; subst. destruct I. rewrite La in inv_wf_la0. constructor; cbn; auto; try discriminate.
+    intros [X|X]; discriminate.
+  - destruct (p_last_answer p) as [d|] eqn:La; [|inversion H; subst; auto].
+    destruct (sig_eqb (p_sig p) HaveRemoteOffer) eqn:Es; [|inversion H; subst; auto].
+    apply sig_eqb_eq in Es.
+    inversion H; subst. destruct I. rewrite La in inv_wf_la0. constructor; cbn; auto.
+Qed.
+
+Lemma set_remote_nonanswer_inv : forall p d from to l0 p' out fx,
+  set_remote_nonanswer p d from to l0 = (p', out, fx) ->
+  to <> HaveLocalPranswer -> Inv p -> Inv p'.
+Proof.
+  intros p d from to l0 p' out fx H Hto I. unfold set_remote_nonanswer in H.
+  destruct (sig_eqb (p_sig p) from); [|inversion H; subst; auto].
+  destruct (remote_offer_loop (d_secs d) _ _ 0) as [[l1 added] ok].
+  inversion H; subst. destruct I. constructor; cbn; auto; discriminate.
 Qed.
 
 Lemma set_remote_inv : forall p ty secs e p' out fx,
@@ -300,11 +323,13 @@ Proof.
   destruct (p_closed p); [inversion H; subst; auto|].
   destruct ty.
   - destruct (sig_eqb (p_sig p) Stable); [|inversion H; subst; auto].
-    destruct (remote_offer_loop secs _ _ 0) as [[l1 added] ok].
-    inversion H; subst. destruct I. constructor; cbn; auto; discriminate.
-  - destruct (sig_eqb (p_sig p) HaveLocalOffer); [|inversion H; subst; auto].
+    eapply set_remote_nonanswer_inv; eauto. discriminate.
+  - destruct (sig_eqb (p_sig p) HaveLocalOffer || sig_eqb (p_sig p) HaveRemotePranswer); [|inversion H; subst; auto].
     match type of H with context [start_rtp_senders ?x] => destruct (start_rtp_senders x) as [la oka] end.
-    destruct secs; cbn in H; inversion H; subst; destruct I; constructor; cbn; auto; discriminate.
+    destruct secs; cbn in H; inversion H; subst; destruct I; constructor; cbn; auto; try discriminate;
+      intros [X|X]; discriminate.
+  - destruct (sig_eqb (p_sig p) HaveLocalOffer); [|inversion H; subst; auto].
+    eapply set_remote_nonanswer_inv; eauto. discriminate.
 Qed.
 
 Lemma step_inv : forall p o p' out fx, step p o = (p', out, fx) -> Inv p -> Inv p'.
@@ -341,7 +366,7 @@ Proof.
   - eapply set_local_inv; eauto.
   - eapply set_remote_inv; eauto.
   - unfold close_pc in H. destruct (p_closed p); inversion H; subst; auto.
-    destruct I. constructor; cbn; auto; discriminate.
+    destruct I. constructor; cbn; auto; try discriminate. intros [X|X]; discriminate.
 Qed.
 
 (* ---------- reachable states ---------- *)
@@ -393,10 +418,12 @@ Proof.
     + destruct (get_by_mid (t_mid t) (d_secs r)); [|eauto].
       destruct (_ && _); eauto.
     + destruct (odir_eqb _ _); eauto.
+    + eauto.
   - destruct (d_type ld).
     + destruct (get_by_mid (t_mid t) (d_secs r)); [|eauto].
       destruct (_ && _); eauto.
     + destruct (odir_eqb _ _); eauto.
+    + eauto.
 Qed.
 
 Lemma check_tcvs_ok : forall ld r l, exists b, check_tcvs ld (Some r) l = Ok b.
@@ -691,6 +718,116 @@ Lemma nofire_witness :
   /\ snd (nstep s (OAddTrack Video (w_enc 2)) []) = [].
 Proof. vm_compute. repeat split; congruence. Qed.
 
+(* ---------- what each call reports to the flag machinery ---------- *)
+
+Lemma create_offer_fx : forall p p' out fx, create_offer p = (p', out, fx) -> fx = fx_none.
+Proof.
+  intros p p' out fx H. unfold create_offer in H.
+  destruct (p_closed p); [inversion H; auto|].
+  destruct (assign_mids _ _) as [g l].
+  match type of H with (match ?b with _ => _ end) = _ => destruct b as [ms|e|] end.
+  - destruct (local_changed l (map render_msec ms)); inversion H; auto.
+  - inversion H; auto.
+  - inversion H; auto.
+Qed.
+
+Lemma create_answer_fx : forall p p' out fx, create_answer p = (p', out, fx) -> fx = fx_none.
+Proof.
+  intros p p' out fx H. unfold create_answer in H.
+  destruct (remote_for_matching p) as [r|]; [|inversion H; auto].
+  destruct (p_closed p); [inversion H; auto|].
+  destruct (_ && _); [inversion H; auto|].
+  destruct (matched_sections p (d_secs r) (p_tcvs p) false) as [[ms unused]|e|]; inversion H; auto.
+Qed.
+
+Lemma set_local_fx : forall p ty p' out fx, set_local p ty = (p', out, fx) ->
+  fx = fx_none \/ (fx = {| fx_triggers := 1; fx_to_stable := true |} /\ p_sig p' = Stable /\ p_closed p' = false).
+Proof.
+  intros p ty p' out fx H. unfold set_local in H.
+  destruct (p_closed p) eqn:Ec; [inversion H; auto|].
+  destruct ty.
+  - destruct (p_last_offer p); [|inversion H; auto].
+    destruct (sig_eqb (p_sig p) Stable); inversion H; auto.
+  - destruct (p_last_answer p); [|inversion H; auto].
+    destruct (_ || _); [|inversion H; auto].
+    destruct (match p_pend_remote p with Some _ => start_rtp_senders _ | None => _ end).
+    inversion H; subst. right. cbn. auto.
+  - destruct (p_last_answer p); [|inversion H; auto].
+    destruct (sig_eqb (p_sig p) HaveRemoteOffer); inversion H; auto.
+Qed.
+
+Lemma set_remote_nonanswer_fx : forall p d from to l0 p' out fx,
+  set_remote_nonanswer p d from to l0 = (p', out, fx) ->
+  fx_to_stable fx = false /\ (p_sig p' = to \/ (p' = p /\ fx = fx_none)).
+Proof.
+  intros p d from to l0 p' out fx H. unfold set_remote_nonanswer in H.
+  destruct (sig_eqb (p_sig p) from); [|inversion H; auto].
+  destruct (remote_offer_loop (d_secs d) _ _ 0) as [[l1 added] ok]. inversion H; subst. cbn. auto.
+Qed.
+
+Lemma set_remote_fx : forall p ty secs e p' out fx, set_remote p ty secs e = (p', out, fx) ->
+  (fx_to_stable fx = false /\ (p_sig p' <> Stable \/ (p' = p /\ fx = fx_none)))
+  \/ (fx = {| fx_triggers := 1; fx_to_stable := true |} /\ p_sig p' = Stable /\ p_closed p' = false).
+Proof.
+  intros p ty secs e p' out fx H. unfold set_remote in H.
+  destruct (p_closed p) eqn:Ec; [inversion H; auto|].
+  destruct ty.
+  - destruct (sig_eqb (p_sig p) Stable); [|inversion H; auto].
+    apply set_remote_nonanswer_fx in H. destruct H as [H1 [H2|H2]]; left; split; auto.
+    left. rewrite H2. discriminate.
+  - destruct (_ || _); [|inversion H; auto].
+    match type of H with context [start_rtp_senders ?x] => destruct (start_rtp_senders x) end.
+    right. destruct secs; cbn in H; inversion H; subst; cbn; auto.
+  - destruct (sig_eqb (p_sig p) HaveLocalOffer); [|inversion H; auto].
+    apply set_remote_nonanswer_fx in H. destruct H as [H1 [H2|H2]]; left; split; auto.
+    left. rewrite H2. discriminate.
+Qed.
+
+(* the local media calls and Close never report a transition into stable *)
+Lemma step_other_fx : forall p o p' out fx,
+  step p o = (p', out, fx) ->
+  match o with OCreateOffer | OCreateAnswer | OSetLocal _ | OSetRemote _ _ _ => True
+             | _ => fx = fx_none \/ fx = fx_one end.
+Proof.
+  intros p o p' out fx H. destruct o; cbn [step] in H; auto.
+  - unfold add_track in H. destruct (p_closed p); [inversion H; auto|].
+    destruct (add_track_reuse (p_tcvs p) k i); inversion H; auto.
+  - unfold add_tcv_kind in H. destruct (p_closed p); [inversion H; auto|].
+    destruct d as [[| | |]|]; inversion H; auto.
+  - unfold add_tcv_track in H. destruct (p_closed p); [inversion H; auto|].
+    destruct d as [[| | |]|]; inversion H; auto.
+  - unfold add_encoding in H. destruct (nth_error (p_tcvs p) ti) as [t|]; [|inversion H; auto].
+    destruct (t_sender t) as [sn|]; [|inversion H; auto].
+    repeat match type of H with
+           | (if ?c then _ else _) = _ => destruct c; [inversion H; auto; fail|]
+           | (match ?c with Some _ => _ | None => _ end) = _ => destruct c; [|inversion H; auto; fail]
+           end.
+    inversion H; auto.
+  - unfold remove_track in H. destruct (nth_error (p_tcvs p) ti) as [t|]; [|inversion H; auto].
+    destruct (t_sender t) as [sn|]; [|inversion H; auto].
+    destruct (p_closed p); [inversion H; auto|].
+    destruct (sending_dir false (t_dir t)); inversion H; auto.
+  - unfold replace_track in H. destruct (nth_error (p_tcvs p) ti) as [t0|]; [|inversion H; auto].
+    destruct (t_sender t0) as [sn|]; [|inversion H; auto].
+    destruct t as [tr|].
+    + destruct (negb (kind_eqb k (t_kind t0))); [inversion H; auto|].
+      destruct (Nat.ltb 1 (List.length (sn_encs sn))); inversion H; auto.
+    + inversion H; auto.
+  - unfold create_data_channel in H. destruct (p_closed p); inversion H; auto.
+  - unfold close_pc in H. destruct (p_closed p); inversion H; auto.
+Qed.
+
+Lemma step_to_stable_triggers : forall p o p' out fx,
+  step p o = (p', out, fx) -> fx_to_stable fx = true -> fx_triggers fx = 1.
+Proof.
+  intros p o p' out fx H Hst. pose proof (step_other_fx _ _ _ _ _ H) as Ho.
+  destruct o; try (destruct Ho as [->| ->]; discriminate); cbn [step] in H.
+  - apply create_offer_fx in H. subst. discriminate.
+  - apply create_answer_fx in H. subst. discriminate.
+  - apply set_local_fx in H. destruct H as [->|[-> _]]; [discriminate|reflexivity].
+  - apply set_remote_fx in H. destruct H as [[H _]|[-> _]]; [congruence|reflexivity].
+Qed.
+
 (* ---------- a change made during an exchange: the re-check on reaching stable ---------- *)
 
 Lemma stable_transition_rechecks : forall s o sched s' out fs,
@@ -705,42 +842,7 @@ Proof.
   unfold nstep in H. destruct (step (n_pc s) o) as [[p' out'] fx] eqn:E. cbn in Hst, Hp. subst p'.
   rewrite Hst, drain_spec in H.
   assert (Htrig : fx_triggers fx <> 0).
-  { (* only setDescription reports to_stable, always with one trigger *)
-    destruct o; cbn [step] in E;
-      try (unfold add_track, add_tcv_kind, add_tcv_track, add_encoding, remove_track, replace_track,
-                  create_data_channel, close_pc in E;
-           repeat match type of E with
-                  | (if ?c then _ else _) = _ => destruct c
-                  | (match ?c with _ => _ end) = _ => destruct c
-                  end; inversion E; subst; discriminate).
-    - unfold create_offer in E. destruct (p_closed (n_pc s)); [inversion E; subst; discriminate|].
-      destruct (assign_mids _ _) as [g l].
-      repeat match type of E with
-             | (if ?c then _ else _) = _ => destruct c
-             | (match ?c with _ => _ end) = _ => destruct c
-             end; inversion E; subst; discriminate.
-    - unfold create_answer in E.
-      repeat match type of E with
-             | (if ?c then _ else _) = _ => destruct c
-             | (match ?c with _ => _ end) = _ => destruct c
-             end; inversion E; subst; discriminate.
-    - unfold set_local in E. destruct (p_closed (n_pc s)); [inversion E; subst; discriminate|].
-      destruct ty.
-      + repeat match type of E with
-               | (if ?c then _ else _) = _ => destruct c
-               | (match ?c with _ => _ end) = _ => destruct c
-               end; inversion E; subst; discriminate.
-      + destruct (p_last_answer (n_pc s)); [|inversion E; subst; discriminate].
-        destruct (sig_eqb (p_sig (n_pc s)) HaveRemoteOffer); [|inversion E; subst; discriminate].
-        destruct (match p_pend_remote (n_pc s) with Some _ => start_rtp_senders _ | None => _ end).
-        inversion E; subst. cbn. discriminate.
-    - unfold set_remote in E. destruct (p_closed (n_pc s)); [inversion E; subst; discriminate|].
-      destruct ty.
-      + destruct (sig_eqb (p_sig (n_pc s)) Stable); [|inversion E; subst; discriminate].
-        destruct (remote_offer_loop secs _ _ 0) as [[l1 added] ok]. inversion E; subst. discriminate.
-      + destruct (sig_eqb (p_sig (n_pc s)) HaveLocalOffer); [|inversion E; subst; discriminate].
-        match type of E with context [start_rtp_senders ?x] => destruct (start_rtp_senders x) end.
-        destruct secs; cbn in E; inversion E; subst; cbn; discriminate. }
+  { rewrite (step_to_stable_triggers _ _ _ _ _ E Hst). discriminate. }
   destruct (fx_triggers fx); [congruence|].
   unfold op1, nn_op in H. cbn [n_pc n_flag n_panicked] in H.
   rewrite Hc, Hs in H. cbn in H.
@@ -800,4 +902,305 @@ Lemma no_refire_after_firing : forall s o sched s' out fs h,
 Proof.
   intros s o sched s' out fs h H Hne Hn. apply no_refire; auto.
   eapply firing_sets_flag; eauto.
+Qed.
+
+(* ====================================================================== *)
+(* the flag and the check at every quiescent point                         *)
+(* ====================================================================== *)
+
+(* at rest (queue drained), stable and open: [[NegotiationNeeded]] is set
+   exactly when checkNegotiationNeeded is true *)
+Definition at_rest_ok (s : nn) : Prop :=
+  p_closed (n_pc s) = false -> p_sig (n_pc s) = Stable ->
+  (n_flag s = true <-> check_negotiation_needed (n_pc s) = Ok true).
+
+Lemma op1_syncs : forall s,
+  (exists b, check_negotiation_needed (n_pc s) = Ok b) -> at_rest_ok (fst (op1 s)).
+Proof.
+  intros s [b Hb]. unfold at_rest_ok. rewrite op1_pc. intros Hc Hs.
+  unfold op1, nn_op. rewrite Hc, Hs, Hb. cbn.
+  destruct b; [destruct (n_flag s) eqn:F|]; cbn; rewrite ?Hb, ?F; split; auto; discriminate.
+Qed.
+
+(* every call that reaches onNegotiationNeeded (AddTrack, RemoveTrack,
+   AddTransceiver*, CreateDataChannel, transceivers created by a remote
+   description, setDescription into stable) re-synchronises flag and check *)
+Lemma nstep_trigger_syncs : forall s o sched,
+  Inv (n_pc s) -> fx_triggers (snd (step (n_pc s) o)) <> 0 ->
+  at_rest_ok (fst (fst (nstep s o sched))).
+Proof.
+  intros s o sched I Ht. unfold nstep.
+  destruct (step (n_pc s) o) as [[p' out] fx] eqn:E. cbn in Ht. rewrite drain_spec.
+  destruct (fx_triggers fx); [congruence|].
+  match goal with |- context [op1 ?x] =>
+    pose proof (op1_syncs x) as Hsync; destruct (op1 x) as [s2 f2] eqn:O end.
+  cbn in *. apply Hsync. cbn. apply check_never_panics. eapply step_inv; eauto.
+Qed.
+
+(* what checkNegotiationNeeded reads *)
+Definition tcv_view (t : tcv) :=
+  (t_mid t, t_dir t,
+   match t_dir t with
+   | Sendrecv | Sendonly => Some (option_map sender_track (t_sender t))
+   | _ => None
+   end).
+Definition check_view (p : pc) :=
+  (p_cur_local p, p_cur_remote p, p_dcs p, map tcv_view (p_tcvs p)).
+
+Lemma check_tcv_view : forall ld rd t t', tcv_view t = tcv_view t' -> check_tcv ld rd t = check_tcv ld rd t'.
+Proof.
+  intros ld rd t t' H. unfold tcv_view in H. inversion H as [[Hm Hd Hs]]. unfold check_tcv.
+  rewrite Hm, Hd. rewrite Hd in Hs.
+  destruct (get_by_mid (t_mid t') (d_secs ld)); auto.
+  destruct (t_dir t'); auto; inversion Hs as [Hs'];
+    destruct (t_sender t), (t_sender t'); cbn in Hs'; inversion Hs'; auto; now rewrite H1.
+Qed.
+
+Lemma check_tcvs_view : forall ld rd l l', map tcv_view l = map tcv_view l' -> check_tcvs ld rd l = check_tcvs ld rd l'.
+Proof.
+  induction l as [|t l IH]; intros [|t' l'] H; cbn in H; try discriminate; auto.
+  assert (Ht : tcv_view t = tcv_view t') by congruence.
+  assert (Hl : map tcv_view l = map tcv_view l') by congruence.
+  cbn [check_tcvs]. rewrite (check_tcv_view ld rd t t' Ht).
+  destruct (check_tcv ld rd t') as [[| |]| |]; auto.
+Qed.
+
+Lemma check_view_ext : forall p p', check_view p' = check_view p ->
+  check_negotiation_needed p' = check_negotiation_needed p.
+Proof.
+  intros p p' H. unfold check_view in H.
+  assert (H1 : p_cur_local p' = p_cur_local p) by congruence.
+  assert (H2 : p_cur_remote p' = p_cur_remote p) by congruence.
+  assert (H3 : p_dcs p' = p_dcs p) by congruence.
+  assert (H4 : map tcv_view (p_tcvs p') = map tcv_view (p_tcvs p)) by congruence.
+  unfold check_negotiation_needed. rewrite H1, H2, H3. destruct (p_cur_local p); auto.
+  destruct (_ && _); auto. now apply check_tcvs_view.
+Qed.
+
+Lemma map_update_same {A B} (f : A -> B) : forall l i t t',
+  nth_error l i = Some t -> f t' = f t -> map f (update_nth i (fun _ => t') l) = map f l.
+Proof.
+  induction l as [|x l IH]; intros [|i] t t' Hn Hf; cbn in *; try discriminate; auto.
+  - inversion Hn; subst. now rewrite Hf.
+  - f_equal. eapply IH; eauto.
+Qed.
+
+Lemma view_mark : forall t, tcv_view (mark_negotiated t) = tcv_view t.
+Proof. intro t. unfold tcv_view, mark_negotiated. cbn. destruct (t_sender t), (t_dir t); reflexivity. Qed.
+
+Lemma view_map_mark : forall l, map tcv_view (map mark_negotiated l) = map tcv_view l.
+Proof. intro l. rewrite map_map. apply map_ext. apply view_mark. Qed.
+
+Lemma view_mark_at : forall idx l, map tcv_view (mark_at idx l) = map tcv_view l.
+Proof.
+  intros idx l. unfold mark_at, indexed. generalize 0. induction l as [|t l IH]; intro n; cbn; auto.
+  rewrite IH. f_equal. destruct (existsb _ idx); auto using view_mark.
+Qed.
+
+Lemma assign_mids_id : forall l g, Forall (fun t => t_mid t <> "") l -> assign_mids g l = (g, l).
+Proof.
+  induction l as [|t l IH]; intros g H; cbn; auto. inversion H; subst.
+  destruct (String.eqb (t_mid t) "") eqn:E; [apply String.eqb_eq in E; congruence|].
+  now rewrite IH.
+Qed.
+
+(* the calls after which the check may read differently although
+   onNegotiationNeeded was not called: ReplaceTrack (the msid comparison of step
+   5.3.1 looks at the sender's present track) and a CreateOffer that gives out
+   mids *)
+Definition quiet_ok (p : pc) (o : op) : Prop :=
+  match o with
+  | OReplaceTrack _ _ _ => False
+  | OCreateOffer => Forall (fun t => t_mid t <> "") (p_tcvs p)
+  | _ => True
+  end.
+
+Lemma quiet_step_view : forall p o p' out fx,
+  step p o = (p', out, fx) -> fx_triggers fx = 0 -> quiet_ok p o ->
+  p_sig p' = Stable -> p_closed p' = false ->
+  check_view p' = check_view p /\ p_sig p = Stable /\ p_closed p = false.
+Proof.
+  intros p o p' out fx H Ht Q Hs Hc.
+  assert (Same : p' = p -> check_view p' = check_view p /\ p_sig p = Stable /\ p_closed p = false)
+    by (intros ->; auto).
+  destruct o; cbn [step quiet_ok] in *; try contradiction.
+  - unfold add_track in H. destruct (p_closed p); [inversion H; subst; auto|].
+    destruct (add_track_reuse (p_tcvs p) k i); inversion H; subst; discriminate.
+  - unfold add_tcv_kind in H. destruct (p_closed p); [inversion H; subst; auto|].
+    destruct d as [[| | |]|]; inversion H; subst; auto; discriminate.
+  - unfold add_tcv_track in H. destruct (p_closed p); [inversion H; subst; auto|].
+    destruct d as [[| | |]|]; inversion H; subst; auto; discriminate.
+  - unfold add_encoding in H. destruct (nth_error (p_tcvs p) ti) as [t|] eqn:N; [|inversion H; subst; auto].
+    destruct (t_sender t) as [sn|] eqn:Sn; [|inversion H; subst; auto].
+    destruct (String.eqb (k_rid (i_trk i)) ""); [inversion H; subst; auto|].
+    destruct (sn_stopped sn); [inversion H; subst; auto|].
+    destruct (sn_sent sn); [inversion H; subst; auto|].
+    destruct (sender_track sn) as [ref|] eqn:Tr; [|inversion H; subst; auto].
+    destruct (String.eqb (k_rid ref) ""); [inversion H; subst; auto|].
+    destruct (negb _); [inversion H; subst; auto|].
+    destruct (existsb _ (sn_encs sn)); [inversion H; subst; auto|].
+    inversion H; subst. cbn in *. split; auto. unfold check_view. cbn. f_equal.
+    eapply map_update_same; eauto. unfold tcv_view. cbn. rewrite Sn. cbn.
+    assert (E : sender_track {| sn_encs := sn_encs sn ++ [enc_of i]; sn_negotiated := sn_negotiated sn;
+                                sn_sent := false; sn_stopped := false |} = sender_track sn).
+    { unfold sender_track in *. cbn. destruct (sn_encs sn); [discriminate|reflexivity]. }
+    rewrite E. reflexivity.
+  - unfold remove_track in H. destruct (nth_error (p_tcvs p) ti) as [t|] eqn:N; [|inversion H; subst; auto].
+    destruct (t_sender t) as [sn|]; [|inversion H; subst; auto].
+    destruct (p_closed p); [inversion H; subst; auto|].
+    destruct (sending_dir false (t_dir t)) eqn:D; inversion H; subst; [discriminate|].
+    cbn in *. split; auto. unfold check_view. cbn. f_equal.
+    eapply map_update_same; eauto. unfold tcv_view. cbn. destruct (t_dir t); cbn in D; try discriminate; reflexivity.
+  - unfold create_data_channel in H. destruct (p_closed p); inversion H; subst; auto; discriminate.
+  - (* CreateOffer with every mid already given out *)
+    unfold create_offer in H. destruct (p_closed p) eqn:Ec; [inversion H; subst; auto|].
+    rewrite assign_mids_id in H by exact Q.
+    match type of H with (match ?b with _ => _ end) = _ => destruct b as [ms|e|] end.
+    + destruct (local_changed (p_tcvs p) (map render_msec ms)); inversion H; subst; cbn in *;
+        (split; [|auto]); unfold check_view; cbn; now rewrite view_map_mark.
+    + inversion H; subst; cbn in *. split; auto. unfold check_view; cbn. now rewrite view_mark_at.
+    + inversion H; subst; auto.
+  - unfold create_answer in H.
+    destruct (remote_for_matching p) as [r|]; [|inversion H; subst; auto].
+    destruct (p_closed p); [inversion H; subst; auto|].
+    destruct (negb (sig_eqb (p_sig p) HaveRemoteOffer) && negb (sig_eqb (p_sig p) HaveLocalPranswer)) eqn:Es;
+      [inversion H; subst; auto|].
+    assert (Hns : p_sig p <> Stable).
+    { intro X. rewrite X in Es. discriminate. }
+    destruct (matched_sections p (d_secs r) (p_tcvs p) false) as [[ms unused]|e|];
+      inversion H; subst; cbn in *; try contradiction; auto.
+  - pose proof (set_local_fx _ _ _ _ _ H) as F. destruct F as [->|[-> _]]; [|discriminate].
+    unfold set_local in H. destruct (p_closed p); [inversion H; subst; auto|].
+    destruct ty.
+    + destruct (p_last_offer p); [|inversion H; subst; auto].
+      destruct (sig_eqb (p_sig p) Stable); inversion H; subst; auto. discriminate.
+    + destruct (p_last_answer p); [|inversion H; subst; auto].
+      destruct (_ || _); [|inversion H; subst; auto].
+      destruct (match p_pend_remote p with Some _ => start_rtp_senders _ | None => _ end). inversion H.
+    + destruct (p_last_answer p); [|inversion H; subst; auto].
+      destruct (sig_eqb (p_sig p) HaveRemoteOffer); inversion H; subst; auto. discriminate.
+  - destruct (set_remote_fx _ _ _ _ _ _ _ H) as [[_ [F|[F _]]]|[-> _]]; [contradiction|auto|discriminate].
+  - unfold close_pc in H. destruct (p_closed p); inversion H; subst; auto. discriminate.
+Qed.
+
+Lemma nstep_quiet_preserves : forall s o sched,
+  at_rest_ok s -> fx_triggers (snd (step (n_pc s) o)) = 0 -> quiet_ok (n_pc s) o ->
+  at_rest_ok (fst (fst (nstep s o sched))).
+Proof.
+  intros s o sched A Ht Q. unfold nstep.
+  destruct (step (n_pc s) o) as [[p' out] fx] eqn:E. cbn in Ht. rewrite drain_spec, Ht. cbn.
+  assert (Hst : fx_to_stable fx = false).
+  { destruct (fx_to_stable fx) eqn:X; auto. rewrite (step_to_stable_triggers _ _ _ _ _ E X) in Ht. discriminate. }
+  rewrite Hst. unfold at_rest_ok. cbn. intros Hc Hs.
+  destruct (quiet_step_view _ _ _ _ _ E Ht Q Hs Hc) as [V [Hs0 Hc0]].
+  rewrite (check_view_ext _ _ V). apply A; auto.
+Qed.
+
+(* a history in which every call either reaches onNegotiationNeeded or is not
+   one of the two quiet calls *)
+Fixpoint calm (s : nn) (h : list (op * list bool)) : Prop :=
+  match h with
+  | [] => True
+  | (o, sched) :: r =>
+      (fx_triggers (snd (step (n_pc s) o)) <> 0 \/ quiet_ok (n_pc s) o)
+      /\ calm (fst (fst (nstep s o sched))) r
+  end.
+
+Lemma flag_iff_check_at_rest : forall h s,
+  Inv (n_pc s) -> at_rest_ok s -> calm s h -> at_rest_ok (fst (nrun s h)).
+Proof.
+  induction h as [|[o sched] r IH]; intros s I A C; cbn [nrun]; auto.
+  destruct C as [C1 C2].
+  pose proof (nstep_inv s o sched I) as I1.
+  assert (A1 : at_rest_ok (fst (fst (nstep s o sched)))).
+  { destruct (Nat.eq_dec (fx_triggers (snd (step (n_pc s) o))) 0) as [Z|NZ].
+    - destruct C1 as [C1|C1]; [congruence|]. now apply nstep_quiet_preserves.
+    - now apply nstep_trigger_syncs. }
+  destruct (nstep s o sched) as [[s1 out] fs]. cbn in *.
+  specialize (IH s1 I1 A1 C2). destruct (nrun s1 r). exact IH.
+Qed.
+
+(* from a fresh connection: the first call that reaches onNegotiationNeeded
+   establishes the equivalence (before it, the check is true -- there is no
+   local description -- while nothing has fired) *)
+Lemma flag_iff_check_from_first_trigger : forall always h1 o sched h2,
+  let s0 := fst (nrun (nn_init always) h1) in
+  fx_triggers (snd (step (n_pc s0) o)) <> 0 ->
+  calm (fst (fst (nstep s0 o sched))) h2 ->
+  at_rest_ok (fst (nrun (fst (fst (nstep s0 o sched))) h2)).
+Proof.
+  intros always h1 o sched h2 s0 Ht C.
+  assert (I0 : Inv (n_pc s0)) by apply reachable_inv.
+  apply flag_iff_check_at_rest; auto.
+  - now apply nstep_inv.
+  - now apply nstep_trigger_syncs.
+Qed.
+
+Lemma fresh_not_at_rest_ok : forall a, ~ at_rest_ok (nn_init a).
+Proof. intros a H. destruct (H eq_refl eq_refl) as [_ H2]. specialize (H2 eq_refl). discriminate. Qed.
+
+(* ====================================================================== *)
+(* step 5.3.3 (local description of type answer): the two readings         *)
+(* ====================================================================== *)
+
+(* JSEP 5.3.1: what a side that wants [want] may do when [offered] was offered *)
+Definition intersect_dir (want offered : dir) : dir :=
+  let send := match want with Sendrecv | Sendonly => true | _ => false end
+              && match offered with Sendrecv | Recvonly => true | _ => false end in
+  let recv := match want with Sendrecv | Recvonly => true | _ => false end
+              && match offered with Sendrecv | Sendonly => true | _ => false end in
+  match send, recv with
+  | true, true => Sendrecv | true, false => Sendonly | false, true => Recvonly | false, false => Inactive
+  end.
+(* an answer direction that is a legal response to the offered direction *)
+Definition legal_response (a o : dir) : Prop := intersect_dir a o = a.
+(* checkNegotiationNeeded compares the answer's direction with the transceiver's *)
+Definition plain_clause (a d : dir) : bool := negb (dir_eqb a d).
+(* W3C: "... does not match transceiver.[[Direction]] intersected with the offered direction" *)
+Definition w3c_clause (a o d : dir) : bool := negb (dir_eqb a (intersect_dir d o)).
+
+Lemma answer_readings_differ_iff : forall a o d,
+  plain_clause a d <> w3c_clause a o d <->
+  (a = d /\ ~ legal_response a o) \/ (a <> d /\ a = intersect_dir d o).
+Proof.
+  intros a o d. unfold plain_clause, w3c_clause, legal_response.
+  destruct a, o, d; cbn; split; intro H;
+    try (exfalso; apply H; reflexivity);
+    try (destruct H as [[H1 H2]|[H1 H2]]; try discriminate; try (exfalso; apply H2; reflexivity);
+         try (exfalso; apply H1; reflexivity); fail);
+    try (left; split; [reflexivity|discriminate]);
+    try (right; split; [discriminate|reflexivity]);
+    try discriminate.
+Qed.
+
+Lemma answer_readings_agree_within_offer : forall a o d,
+  intersect_dir d o = d -> plain_clause a d = w3c_clause a o d.
+Proof. intros a o d H. unfold plain_clause, w3c_clause. now rewrite H. Qed.
+
+Lemma answer_readings_agree_legal_unchanged : forall a o,
+  legal_response a o -> plain_clause a a = false /\ w3c_clause a o a = false.
+Proof.
+  intros a o H. unfold plain_clause, w3c_clause. unfold legal_response in H. rewrite H.
+  destruct a; auto.
+Qed.
+
+(* SetRemoteDescription's direction switch leaves the transceiver within the
+   offered direction, except for the two cases recorded under C08 (a=sendonly
+   offered to a transceiver that is sendrecv or sendonly) *)
+Lemma srd_direction_within_offer : forall o d0,
+  (o = Inactive -> d0 = Inactive) ->   (* the loop stops the transceiver first *)
+  intersect_dir (srd_direction o d0) o = srd_direction o d0
+  \/ (o = Sendonly /\ (d0 = Sendrecv \/ d0 = Sendonly)).
+Proof.
+  intros o d0 H. destruct o, d0; cbn; auto; specialize (H eq_refl); discriminate.
+Qed.
+
+(* the model's clause is the plain one *)
+Lemma check_tcv_answer_clause : forall ld rd t m a,
+  d_type ld = TAnswer -> get_by_mid (t_mid t) (d_secs ld) = Some m -> sc_dir m = Some a ->
+  (t_dir t = Recvonly \/ t_dir t = Inactive) ->
+  check_tcv ld rd t = Ok (if plain_clause a (t_dir t) then Needed else NotNeeded).
+Proof.
+  intros ld rd t m a Ht Hm Ha Hd. unfold check_tcv, plain_clause. rewrite Hm, Ht, Ha. cbn.
+  destruct Hd as [-> | ->]; destruct a; reflexivity.
 Qed.
